@@ -2,6 +2,9 @@
 # Regenerates MANIFEST.json from the table below (kept in one place so it stays valid).
 import json, subprocess
 claimed = {
+ "C08": ("choice-tree DFS over code-size classes x every ordered subset of GLOBAL labels x placement x extras x naming patterns x FILE lengths; independent strict COFF reader + debug/pe", "7/C08-C09"),
+ "C09": ("same exploration as C08; .text vs flat binary of the same source, symbol-table model (once each, class/section/value by sentinel-located offset, order, long names), .file record", "7/C08-C09"),
+ "C10": ("explicit-state search over HISTORIES of assemble/reassemble operations on live worker processes: all length-1 and length-2 histories from a fresh process (BFS, replay on fresh workers), all ordered triples as de Bruijn windows; invariant per transition vs fresh-process reference + global-state digests", "7/C10"),
  "C07": ("choice-tree DFS over all 319 grammar mnemonics x operand lists (arity 0..3) over 15 operand kinds, undefined symbols in every operand position, file-level shapes; oracle: diagnosed, or bytes that the reference decoder reads back as the written statement", "7/C07"),
  "C13": ("choice-tree DFS over all byte strings <=2 (256-ary) and 3 (24-ary), token strings <=3/4 over 29 tokens, all single-token/line mutations of 20 programs, the C07 operand space; liveness oracle (no panic, no death, no timeout) + growth envelope on 11 scaling families", "7/C13"),
  "C11": ("choice-tree DFS over base programs x value sets x every subset of literal sites abstracted to EQU x chain depth x body form x placement; differential against the inlined program", "7/C11"),
@@ -19,6 +22,9 @@ claimed = {
  "C05": ("choice-tree DFS over DB/DW/DD operand lists, RESB, ALIGNB x residue x ORG, non-emitting statements; directive reference model", "7/C05"),
 }
 texts = {
+ "C08": "131040 COFF programs (thorough; 4680 quick) are assembled and every object is parsed by an independent strict COFF reader that bounds-checks every offset and count (header, three section headers, symbol records incl. aux, string table length and long-name offsets) and by Go's debug/pe.",
+ "C09": "For the same programs: .text must be byte-identical to the flat binary of the source without [FORMAT]; each defined GLOBAL name exactly once as class-2 symbol of section 1 whose value is the sentinel-located offset of its label; long names through the string table; defined symbols in address order, undefined last; the [FILE] name in the .file aux record.",
+ "C10": "Operations are assemble(program, destination state) for 12 programs x {absent, longer leftover file, shorter leftover file} and re-assemble-the-same-parsed-tree x 3 (39 operations). Every history of length 1 and 2 from a fresh process (quick: pairs over 15 operations) and, in the thorough tier, every ordered triple as a window of a de Bruijn sequence run on live workers; after every operation the output and diagnostics must equal those of the program as the only operation of a fresh process, and digests of the process-global tables and of the parsed tree must be unchanged.",
  "C07": "Every mnemonic the grammar accepts with every operand list up to arity 1 (thorough: 2, and 3 over six kinds) over 15 operand kinds is embedded between sentinels; a statement accepted without any diagnostic must have emitted bytes, and bytes the reference decoder can read must denote the written mnemonic and operands; directives must refuse operands they cannot represent; an undefined symbol in each of 34 operand positions must be diagnosed; file prefixes x unparsable first lines must not make the rest of the file disappear.",
  "C13": "Exhaustive enumeration of short byte strings, token strings, single-token and line mutations and the mnemonic x operand space, each executed on the real pipeline in a worker whose death, recovered panic or missing answer is the failure; scaling families are measured at n = 10..10^4 (thorough 10^5) against a 200x-per-decade envelope.",
  "C11": "Every non-empty subset of the literal sites of six base programs (immediates, displacements, data items, RESB/ALIGNB/ORG operands, far-pointer parts, port numbers; values on both sides of encoding boundaries) is replaced by EQU names with chains of depth 1..4, three body forms and two placements; the output must be byte-identical to the inlined program. 4320 variants, exhaustive within those bounds.",
@@ -36,6 +42,9 @@ texts = {
  "C05": "Every operand list up to the stated length over a 27-item boundary alphabet (and rotations up to length 64), every RESB/ALIGNB/residue/ORG combination and every non-emitting statement is assembled by the real pipeline and compared byte for byte with a directive model; the location counter is compared with the emitted length. Exhaustive within the stated bounds.",
 }
 notes = {
+ "C08": "Trusted: the strict COFF reader (written from the specification), debug/pe as a second reader.",
+ "C09": "Known finding: [FILE] names longer than 18 bytes are truncated. Fixed: duplicate GLOBAL names.",
+ "C10": "Map iteration order and the clock are not controlled choice points (stated in the evidence); 5 fresh CLI processes per program are an auxiliary smoke test. Global state is observed through overlay-injected read-only dumpers; if they fail to build against an edited tree the check falls back to output comparison only.",
  "C07": "Validity of x86 forms is not modelled in full: accepted statements whose bytes the reference decoder cannot read are counted (accepted_unknown_encoding) and not judged further. Known findings: operand-less opcode table, segment registers as general registers, 32-bit branch targets in 16-bit mode, DB/DW/DD without operands, [undefined] = 0, leading newline + unparsable first line.",
  "C13": "Byte strings are exhaustive only to length 2/3; timing oracle is an envelope, not a bound. Crashes are re-confirmed through the real CLI before being reported.",
  "C11": "Differential; the inlined program is the reference.",
